@@ -248,11 +248,15 @@ def extract_branch_results_with_internals(net, branch_results, table_name,
             # table row order, so the last section of table row r is the r-th position at which
             # the element index changes
             last_section = np.flatnonzero(np.append(idx_pit[1:] != idx_pit[:-1], True))
+            first_section = np.flatnonzero(np.append(True, idx_pit[1:] != idx_pit[:-1]))
             connected_rows = comp_connected[last_section]
+            # with flow against the declared direction the element's outlet is its first section
+            switched = branch_pit[f:t, FROM_NODE_T_SWITCHED][last_section].astype(bool)
+            outlet_section = np.where(switched, first_section, last_section)
 
             for i, (res_name, entry) in enumerate(res_branch):
                 res_table[res_name].values[connected_rows] = \
-                    branch_results[entry][f:t][last_section[connected_rows]]
+                    branch_results[entry][f:t][outlet_section[connected_rows]]
 
 
 def extract_branch_results_without_internals(net, branch_results, required_results_hydraulic,
